@@ -184,7 +184,7 @@ impl<'a> Run<'a> {
         });
         self.stats.polls += 1;
         let waker = if fresh {
-            Waker::from(std::sync::Arc::new(TaskW(k)))
+            Waker::from(TaskW::new(k))
         } else {
             self.wakers[k].clone()
         };
@@ -1698,7 +1698,18 @@ impl<'a> Run<'a> {
         let wk = std::mem::take(&mut self.wakers);
         drop(wk);
         // final ledgers
+        let tw_alive = task_wakers_alive();
         w(|x| {
+            // the subject, every child, every child waker and the harness' own handles are gone: whoever still
+            // references a task waker is shared waker state that was not torn down (the registration cell of a
+            // block, I15)
+            if tw_alive != 0 && x.blocks.iter().all(|b| b.released) && !x.children.iter().any(|c| c.dropped == 0 && c.tracked()) {
+                x.violate(
+                    p(3),
+                    "C03/task-waker-leaked",
+                    format!("{tw_alive} task-waker objects are still referenced after the subject, its children and every waker are gone and every waker block was reported released: the shared state of a block was not destroyed with it"),
+                );
+            }
             let mut leaked_children = Vec::new();
             for (i, c) in x.children.iter().enumerate() {
                 if c.dropped == 0 && c.tracked() {
